@@ -42,7 +42,10 @@ REQUIRED_TRIE = ["KV.C03Trie.trie_refines", "KV.C03Trie.trie_prob", "KV.C03Trie.
                  "KV.C03Trie.ExampleBuilt.built_represents", "KV.C03Trie.ExampleBuilt.built_eq_real_file"]
 
 REQUIRED_TRIEBUILD = ["KV.C03TrieBuild.trie_write_frame", "KV.C03TrieBuild.key_order",
-                      "KV.C03TrieBuild.trie_build_represents_partial", "KV.C03TrieBuild.visit_invariant"]
+                      "KV.C03TrieBuild.trie_build_represents_partial", "KV.C03TrieBuild.visit_invariant",
+                      "KV.C03TrieBuild.visit_order_strict", "KV.C03TrieBuild.trie_build_visit", "KV.C03TrieBuild.trie_regions_read",
+                      "KV.C03TrieBuild.ofTable_represents", "KV.C03TrieBuild.trie_build_refines",
+                      "KV.C03TrieBuild.example_btok", "KV.C03TrieBuild.example_shape_ok", "KV.C03TrieBuild.example_build_refines"]
 
 TYPE_NAMES = ["probing", "rest-probing", "trie", "quant-trie", "array-trie", "quant-array-trie"]
 
